@@ -225,7 +225,9 @@ def rule_R1(ctx: Ctx) -> None:
             if r["partial"]:
                 ctx.violation(c, slot, exp, "arrays compared through a primitive that is not total")
             elif r["unknown"]:
-                ctx.unknown(c, slot, exp, "explicit __eq__ has a shape the extractor does not understand")
+                # located slot (the effective explicit __eq__) with a conjunct outside the enumerated accepted set
+                ctx.violation(c, slot, exp, "a comparison in __eq__ is not in the accepted total set {np.array_equal(self.f, other.f)} "
+                              f"(kind/foreign-type guards aside): {r['unknown'][0][:80]} - e.g. np.array_equiv broadcasts, `is` compares identity")
             elif r["fields"] != want:
                 ctx.violation(c, slot, exp, f"compares {sorted(r['fields'])}, compare=True fields are {sorted(want)}")
             elif not r["kind"]:
@@ -236,6 +238,20 @@ def rule_R1(ctx: Ctx) -> None:
                 ctx.holds(c, slot, exp)
         else:
             ctx.violation(c, slot, exp, "__eq__ is None")
+
+
+def _hash_noncanonical(fn: FuncInfo) -> list[str]:
+    """array reads hashed as raw bytes without a fixed dtype: `self.f.tobytes()` is dtype-dependent, while
+    __eq__ (np.array_equal) compares values; accepted: self.f.astype(<dtype>).tobytes(), np.asarray(self.f, dtype=..).tobytes(),
+    self.f.tolist()"""
+    selfname = fn.params()[0]
+    out = []
+    for n in ast.walk(fn.node):
+        if isinstance(n, ast.Call) and isinstance(n.func, ast.Attribute) and n.func.attr == "tobytes":
+            v = n.func.value
+            if isinstance(v, ast.Attribute) and isinstance(v.value, ast.Name) and v.value.id == selfname:
+                out.append(ast.unparse(n))
+    return out
 
 
 def _hash_reads(fn: FuncInfo) -> tuple[set[str], list[str]]:
@@ -250,7 +266,7 @@ def _hash_reads(fn: FuncInfo) -> tuple[set[str], list[str]]:
         if isinstance(n, ast.Attribute) and isinstance(n.value, ast.Name) and n.value.id == selfname:
             reads.add(n.attr)
             p = parents.get(n)
-            ok = isinstance(p, ast.Attribute) and p.attr in ("tobytes", "shape", "dtype") or (
+            ok = isinstance(p, ast.Attribute) and p.attr in ("tobytes", "shape", "dtype", "astype", "tolist") or (
                 isinstance(p, ast.Call) and dotted_of(p.func) in ("tuple", "bytes", "str", "repr"))
             if not ok:
                 bad.append(ast.unparse(n))
@@ -281,6 +297,11 @@ def rule_R2_R3(ctx: Ctx) -> None:
             arr_bad = [b for b in bad if b.split(".")[-1] in all_fields and is_array_annotation(ctx, all_fields[b.split(".")[-1]])]
             slot.update({"reads": sorted(reads), "array_reads_not_via_tobytes": arr_bad})
             ctx.judge(c, not arr_bad, slot, exp, "array field hashed directly", rule="C09.R2")
+            raw = _hash_noncanonical(h.func)
+            ctx.judge(c, not raw, {"raw_byte_reads": raw},
+                      "arrays are hashed in a canonical dtype (x.astype(T).tobytes()), because __eq__ compares values: equal mazes must hash equally "
+                      "whatever integer width their arrays have (loaded mazes: int8, solved mazes: int64)",
+                      "two mazes that compare equal hash differently when their array dtypes differ: set()/dict de-duplication keeps both", rule="C09.R3")
             extra = sorted(r for r in reads if r in all_fields and r not in compared)
             ctx.judge(c, not extra and bool(reads & compared), {"reads": sorted(reads), "compared": sorted(compared), "not_compared": extra},
                       "attributes read by __hash__ are a non-empty subset of the compared fields (equal mazes => equal hashes)",
